@@ -141,7 +141,10 @@ def expr_as_matrix(expr: Callable, *inputs, res_like: "MultiVector" = None):
     alg = x.algebra
     numerical = all(not r.issymbolic for r in rest)
     if numerical and any(len(r.shape) > 1 for r in rest):  # Only do this for multidimensional arrays
-        symbolic_rest = [alg.multivector(name=string.ascii_uppercase[i], keys=mv.keys()) for i, mv in enumerate(rest)]
+        # Symbolic stand-ins for the numerical inputs, with names that can not collide with the symbols of x.
+        taken = [str(symbol) for symbol in x.free_symbols]
+        names = [c for c in string.ascii_uppercase if not any(name.startswith(c) for name in taken)]
+        symbolic_rest = [alg.multivector(name=names[i], keys=mv.keys()) for i, mv in enumerate(rest)]
         symbolic_inputs = [*symbolic_rest, x]
         A, y = expr_as_matrix(expr, *symbolic_inputs, res_like=res_like,)
         symbols2values = dict(itertools.chain(*(zip(smv.values(), mv.values()) for smv, mv in zip(symbolic_rest, rest))))
